@@ -595,8 +595,9 @@ class SecopClient(ProxyClient):
                     entry[1].set()  # release the caller: its request will not be sent anymore
         except Exception:
             pass
-        if self.io:
-            self.io.shutdown()
+        io = self.io  # another thread running disconnect may clear the attribute at any time
+        if io:
+            io.shutdown()
         txthread = self._txthread  # the threads clear these attributes themselves when ending
         if txthread:
             self.txq.put(None)  # shutdown marker
@@ -606,8 +607,9 @@ class SecopClient(ProxyClient):
         if rxthread:
             rxthread.join()
             self._rxthread = None
-        if self.io:
-            self.io.disconnect()
+        io = self.io
+        if io:
+            io.disconnect()
         self.io = None
         # abort pending requests early
         try:  # avoid race condition
